@@ -147,6 +147,22 @@ def hooks():
             return itr(v0[1])
         if re.search(r"iter::Iterator::rev$", nm) and v0[0] == "iter":
             return itr(v0[1][::-1])
+        if re.search(r"iter::Iterator::enumerate$", nm) and v0[0] == "iter":
+            return itr(tuple(("tuple", (CW.const(i), x)) for i, x in enumerate(v0[1])))
+        if re.search(r"iter::Iterator::(skip|take)$", nm) and v0[0] == "iter" and len(argv) > 1 and CW.is_const(argv[1]):
+            k = argv[1][1]
+            return itr(v0[1][k:] if nm.endswith("skip") else v0[1][:k])
+        if re.search(r"iter::Iterator::count$", nm) and v0[0] == "iter":
+            return CW.const(len(v0[1]))
+        if re.search(r"iter::Iterator::zip$", nm) and v0[0] == "iter" and len(argv) > 1:
+            o = w.deref_val(env, argv[1])
+            if o[0] == "adt" and str(o[2]).startswith("RangeFrom"):
+                s0 = w.field(o, "start")
+                if CW.is_const(s0):
+                    return itr(tuple(("tuple", (x, CW.const(s0[1] + i))) for i, x in enumerate(v0[1])))
+            if o[0] in ("iter", "list"):
+                return itr(tuple(("tuple", (x, y)) for x, y in zip(v0[1], o[1])))
+            return None
         if re.search(r"iter::Iterator::(by_ref|fuse|peekable)$", nm) and v0[0] == "iter":
             return a0 if a0[0] == "ref" else v0
         if (re.search(r"Iterator>?::next$", nm) or re.search(r"Iterator::next$", d)) and v0[0] == "iter":
